@@ -28,6 +28,10 @@ CHECKS = {
  "C02": dict(cat="exploration", tech="bounded-exhaustive generate-compile-run: every field shape x requiredness x small total value domain, executed on the real generated Read/Write and compared with an independent schema-driven binary codec; exhaustive single-field perturbations",
    text="The type-kernel program (one struct per leaf class / container-of-leaf / container-in-container shape x {default, required, optional}, declared defaults of every base type, union, exception, recursive struct, synthesized args/result of 9 methods; 435 roots quick) is generated by the thriftgo built from the working tree under the default configuration and 7 (thorough 35) presentation-only option sets, compiled, and driven through a reflection driver: for every value of each root's domain (25k vectors) Write's bytes must be well-formed and decode under the reference codec to the value, Read of the reference encoding must yield the value on fields, getters, IsSet and struct tags, options must not change a byte; every unknown-field insertion (11 wire types x every position), every retagging, deletion of the field and field reordering is applied to the reference encodings; unions with 0/2 members must be refused.",
    note="Trusted: internal/refsem codec (written from the protocol specification), the reflection driver, apache/thrift v0.13.0 TBinaryProtocol. A configuration whose generated code does not compile only costs coverage here (it is C01's subject).", ref="§3 C02"),
+
+ "C01": dict(cat="exploration", tech="bounded-exhaustive generate-and-type-check: program universe (type kernels, every identifier of a 70-name alphabet at every name position, colliding name pairs, include/namespace/service structures) x every documented option alone, naming styles, templates, both backends; go/types over all generated packages plus go build + go vet",
+   text="~1900 (thorough ~7000) (program, configuration) pairs are generated by the thriftgo built from the working tree; for every accepted pair every written .go file must parse and all generated packages of the pair must type-check together against the pinned runtime libraries (go/types with export data of the real dependencies: redeclarations, missing/unused imports, unused variables/labels, unresolved selectors, two package names in one directory), and the kernel/structure items are additionally built and vetted with the real toolchain. Thorough adds the wide kernel under every option and all unordered pairs of boolean options on the interplay program.",
+   note="A rejected pair (exit != 0) is never a violation here (C04's subject). code_ref* options are not exercised (need an idl-ref.yaml and a referenced module); streaming code is generated only for IDLs without streaming annotations (kitex is not in the module cache). Nine recorded findings.", ref="§3 C01"),
 }
 NA = {}
 def main():
